@@ -3,7 +3,7 @@ from .core import core_check
 
 
 def run():
-    chk = core_check("C07", cfgs=("A", "B"), quick_keep=24, thorough_keep=6, sessions_quick=480, sessions_thorough=2500, keep_b=(4, 1), traces=(3000, 60000))
+    chk = core_check("C07", cfgs=("A", "B"), quick_keep=24, thorough_keep=6, sessions_quick=480, sessions_thorough=2500, keep_b=(4, 1), traces=(3000, 20000))
     if isinstance(chk, int):
         return chk
     chk.assumptions += ["snapshots executed inside test functions, copyable values, arguments that do not change",
